@@ -389,6 +389,17 @@ def always_exits(stmts) -> bool:
             return True
         if isinstance(st, ast.If) and st.orelse and always_exits(st.body) and always_exits(st.orelse):
             return True
+        # try: every way out of the statement leaves the list - the body (or its else part) and every handler exit,
+        # or the finally part does
+        if isinstance(st, ast.Try):
+            if st.finalbody and always_exits(st.finalbody):
+                return True
+            body_exits = always_exits(st.body) or (bool(st.orelse) and always_exits(st.orelse))
+            if body_exits and all(always_exits(h.body) for h in st.handlers):
+                return True
+        if isinstance(st, ast.With) and always_exits(st.body) and not any(
+                isinstance(x, ast.Call) and "suppress" in ast.unparse(x.func) for it in st.items for x in ast.walk(it.context_expr)):
+            return True
     return False
 
 
